@@ -378,3 +378,123 @@ func RulePF1(c *Ctx) {
 		sc.Undecided("groups", "-", "no parallel slice fields found (the include stack and its hashes were confirmed by hand)")
 	}
 }
+
+// ---------------------------------------------------------------- CP1
+
+// RuleCP1: a field-by-field copy copies every field. A composite literal of a struct type T
+// in which at least three fields are initialised from the same field of one value of type T
+// (`Key: c.Key, Type: c.Type, ...`) is a hand-written copy; every field of T is either in
+// the literal or assigned on the result later in the same function. A field that is left
+// out is silently reset in the copy - for a schema node the inheritance mark, so a copied
+// subtree no longer says which base a property came from.
+func RuleCP1(c *Ctx) {
+	sc := c.Run.Begin("CP1", "every hand-written field-by-field copy of a struct (a literal with at least three `F: x.F` initialisers from one same-typed value) accounts for every field of the struct, in the literal or by a later assignment on the result", 0)
+	defer sc.End()
+	n := 0
+	perFn := map[*ast.FuncDecl]int{}
+	c.P.Funcs(func(pk *pkgT, fd *ast.FuncDecl) {
+		info := pk.TypesInfo
+		ast.Inspect(fd.Body, func(x ast.Node) bool {
+			cl, ok := x.(*ast.CompositeLit)
+			if !ok {
+				return true
+			}
+			t := info.TypeOf(cl)
+			if t == nil {
+				return true
+			}
+			st, ok := t.Underlying().(*types.Struct)
+			if !ok {
+				return true
+			}
+			// count `F: src.F` with src of (pointer to) the same type
+			srcCount := map[types.Object]int{}
+			listed := map[string]bool{}
+			for _, el := range cl.Elts {
+				kv, ok := el.(*ast.KeyValueExpr)
+				if !ok {
+					return true // positional literal: the compiler demands every field
+				}
+				kid, ok := kv.Key.(*ast.Ident)
+				if !ok {
+					continue
+				}
+				listed[kid.Name] = true
+				sel, ok := ast.Unparen(kv.Value).(*ast.SelectorExpr)
+				if !ok || sel.Sel.Name != kid.Name {
+					continue
+				}
+				base, ok := ast.Unparen(sel.X).(*ast.Ident)
+				if !ok {
+					continue
+				}
+				bt := info.TypeOf(base)
+				if p, isP := bt.(*types.Pointer); isP {
+					bt = p.Elem()
+				}
+				if bt != nil && types.Identical(bt, t) {
+					srcCount[info.ObjectOf(base)]++
+				}
+			}
+			best := 0
+			for _, k := range srcCount {
+				if k > best {
+					best = k
+				}
+			}
+			if best < 3 {
+				return true
+			}
+			// the variable the literal is stored in, and the fields assigned on it later
+			var holder types.Object
+			ast.Inspect(fd.Body, func(y ast.Node) bool {
+				as, ok := y.(*ast.AssignStmt)
+				if !ok || len(as.Lhs) != 1 || len(as.Rhs) != 1 {
+					return true
+				}
+				r := ast.Unparen(as.Rhs[0])
+				if u, ok := r.(*ast.UnaryExpr); ok && u.Op == token.AND {
+					r = ast.Unparen(u.X)
+				}
+				if r == ast.Expr(cl) {
+					if id, ok := as.Lhs[0].(*ast.Ident); ok {
+						holder = info.ObjectOf(id)
+					}
+				}
+				return true
+			})
+			if holder != nil {
+				ast.Inspect(fd.Body, func(y ast.Node) bool {
+					as, ok := y.(*ast.AssignStmt)
+					if !ok {
+						return true
+					}
+					for _, l := range as.Lhs {
+						if sel, ok := ast.Unparen(l).(*ast.SelectorExpr); ok {
+							if id, ok := ast.Unparen(sel.X).(*ast.Ident); ok && info.ObjectOf(id) == holder {
+								listed[sel.Sel.Name] = true
+							}
+						}
+					}
+					return true
+				})
+			}
+			var missing []string
+			for i := 0; i < st.NumFields(); i++ {
+				if f := st.Field(i); !listed[f.Name()] {
+					missing = append(missing, f.Name())
+				}
+			}
+			n++
+			perFn[fd]++
+			key := fmt.Sprintf("%s#%d", c.P.DeclName(fd), perFn[fd])
+			if len(missing) == 0 {
+				sc.Holds(key, c.P.Pos(cl.Pos()), fmt.Sprintf("field-by-field copy of %s accounts for all %d fields", types.TypeString(t, types.RelativeTo(pk.Types)), st.NumFields()))
+			} else {
+				sc.Violation(key, c.P.Pos(cl.Pos()), fmt.Sprintf("field-by-field copy of %s leaves out %s: the copy silently loses it (for a schema node the inheritance mark: copied properties no longer name the base they were taken from)", types.TypeString(t, types.RelativeTo(pk.Types)), strings.Join(missing, ", ")))
+			}
+			return true
+		})
+	})
+	sc.Info("copies", "-", fmt.Sprintf("%d hand-written field-by-field copies found", n))
+}
